@@ -465,6 +465,31 @@ func checkC12(r *mc.Report, thorough bool) {
 	p.Done()
 
 	// subject parsers on malformed subjects
+	// ---- the serial point format carries every field as well (values to float32 precision; framing itself is C17)
+	p = r.Part("serial-point-roundtrip", "every point and every ordered pair of points of the 12-point mix through SerialEncode -> SerialDecode -> PbDecodeSerialPoints: time, type, key, value (float32), text, data, tombstone and origin come back")
+	for i := range mix {
+		for j := -1; j < len(mix); j++ {
+			pts := data.Points{mix[i]}
+			if j >= 0 {
+				pts = append(pts, mix[j])
+			}
+			p.Case(true)
+			p.Step(1)
+			var d string
+			if pan := mc.Safely(func() { d = c17Round(byte(i), "p.x", pts) }); pan != "" {
+				d = "panic: " + pan
+			}
+			if d != "" && !strings.HasPrefix(d, "SerialEncode error") {
+				var in []c12Pt
+				for _, q := range pts {
+					in = append(in, c12Desc(q))
+				}
+				p.Violation("serial-point-roundtrip/"+firstField(d), "point list does not survive the serial point format: "+d, in)
+			}
+		}
+	}
+	p.Done()
+
 	// ---- results of successive calls are independent (no buffer shared between two results)
 	p = r.Part("successive-calls", "for every ordered pair of inputs from the 12-point mix (and, for serial packets, 3 subjects x 2 sequence numbers): encode A, keep the bytes, encode B, decode both; decode A, keep the value, decode B: the first result must be byte for byte what it was before the second call and must decode to the same value as before it (the round trip itself is judged by the other parts) — for Points.ToPb/PbDecodePoints, NodeEdge.ToPb/PbDecodeNode, SerialEncode/SerialDecode+PbDecodeSerialPoints and the high-rate payload decoder")
 	type encdec struct {
